@@ -71,6 +71,24 @@ def cases(rng, tier):
             elif rng.random() < 0.6:
                 tr["segs"][k][ax] = [rng.choice([20000, -20000])]
         yield ("stats bbox %s" % hexs(G.encode(tr)), "zero-duration-segment")
+    # positions at the very limits of the stored coordinates (raw -32768 and 32767, which are not symmetric), as start
+    # point, as the end of a straight segment and as an inner control point of a curve, on every axis, at several scales
+    for i in range(24 if tier == "thorough" else 12):
+        tr = G.rand_traj(rng, nseg=rng.choice([1, 2, 3]), degs=None if i % 2 else [1, 1, 1, 0], maxdeg=3)
+        ax = ("x", "y", "z")[i % 3]
+        lim = (-32768, 32767)[(i // 3) % 2]
+        where = rng.choice(["start", "end", "end", "inner"])
+        if where == "start":
+            tr["start"][i % 3] = lim
+        else:
+            k = rng.randrange(len(tr["segs"]))
+            if where == "inner" and len(tr["segs"][k][ax]) >= 3:
+                tr["segs"][k][ax][1] = lim
+            else:
+                n = max(1, len(tr["segs"][k][ax]))
+                tr["segs"][k][ax] = ([0] * (n - 1)) + [lim] if n > 1 else [lim]
+        tr["scale"] = rng.choice([1, 10, 100, 127])
+        yield ("stats bbox %s" % hexs(G.encode(tr)), "coordinate-limits")
 
 
 def compare(case, om, oi):
